@@ -169,6 +169,21 @@ def make_cases(tier, seed, n_random=None, n_productive=None):
                 cases.append(dict(kind="one", name=name, g=g, sr=sr, preps=PREPS if (corpus or (i + j) % 3 == 0) else [()]))
         if corpus or i % 7 == 0:
             cases.append(dict(kind="one", name=name + "#intV", g=dom_cfg.int_terminals(g), sr=srs[i % len(srs)], preps=[()]))
+    # exact duplicates (identical weight, head and body: Rule objects that are == and hash alike); the first shape has a duplicated
+    # production half of whose body generates while the rest does not, so its head must NOT count as generating
+    from fractions import Fraction as F
+    from vlib.spec.cfgspec import G
+    drng = random.Random(seed + 4242)
+    dups = [("dup_partial_generating", G("N0", frozenset("ab"), [(F(1, 2), "N0", ("N1",)), (F(1, 3), "N1", ("N2", "N3")), (F(1, 3), "N1", ("N2", "N3")),
+                                                                (F(1, 5), "N2", ("b",)), (F(1, 7), "N3", ("N3", "a"))])),
+            ("dup_partial_generating_long", G("N0", frozenset("ab"), [(F(1, 2), "N0", ("a", "N1")), (F(1, 2), "N0", ("b",)), (F(1, 3), "N1", ("N2", "N2", "N3", "N3")),
+                                                                     (F(1, 3), "N1", ("N2", "N2", "N3", "N3")), (F(1, 5), "N2", ("b",)), (F(1, 7), "N3", ("N3",))]))]
+    for i, (name, g) in enumerate(doms):
+        corpus = not (name.startswith("rand") or name.startswith("prod"))
+        if g.rules and (corpus or i % 9 == 0):
+            dups.append((name + "#dup", dom_cfg.exact_duplicates(g, drng)))
+    for i, (name, g) in enumerate(dups):
+        cases.append(dict(kind="one", name=name, g=g, sr=srs[i % len(srs)], preps=PREPS if i < 2 else [()]))
     # exhaustive G(2,2,3,2): thorough = all shapes, quick = a seeded slice of chunks
     n = dom_cfg.enum_size()
     chunks = [(lo, min(lo + ENUM_CHUNK, n)) for lo in range(0, n, ENUM_CHUNK)]
